@@ -159,6 +159,11 @@ func runC16(c *Ctx, cases []*C16Case) bool {
 				c.Violate(cs, msg)
 				return true
 			}
+			if !r.Built && !looksLikeLanguageError(v, r.BuildErr) {
+				// the toolchain failed for a reason that is not a diagnostic about the file
+				c.Infra("variant %s: toolchain failure that is not a compile/load diagnostic: %s", v.Name, clip(r.BuildErr, 400))
+				return true
+			}
 			if !r.Built {
 				msg := fmt.Sprintf("variant %s: yaccgo reported no error but the generated file does not %s:\n%s\ngrammar:\n%s", v.Name, map[bool]string{true: "build", false: "load"}[v.IsGo()], clip(r.BuildErr, 1500), cs.Text)
 				c16Msg = msg
@@ -212,4 +217,19 @@ func c16Nontrivial(s *spec.Spec) bool {
 		}
 	}
 	return lit && ident && untagged
+}
+
+// looksLikeLanguageError tells a diagnostic about the generated file (compile
+// error with file:line, JavaScript SyntaxError/ReferenceError/TypeError) from
+// a failure of the toolchain itself (killed, out of memory, missing binary).
+func looksLikeLanguageError(v gen.Variant, diag string) bool {
+	if v.IsGo() {
+		return strings.Contains(diag, "main.go:")
+	}
+	for _, k := range []string{"SyntaxError", "ReferenceError", "TypeError", "ERR_INVALID_TYPESCRIPT_SYNTAX", "RangeError"} {
+		if strings.Contains(diag, k) {
+			return true
+		}
+	}
+	return false
 }
